@@ -49,7 +49,7 @@ def run_job(job):
     with okv.Session(su) as s:
         sz = s.sz
         worlds = [(None, None, None, False), (b"alice", b"the-server", b"ctx", False), (None, b"srv", None, True)]
-        nrep = 1 if tier == "quick" else 8
+        nrep = 1 if tier == "quick" else 30
         for rep in range(nrep):
             for wi, (idu, ids, ctx, fake) in enumerate(worlds):
                 wseed = proto.H("c18", su, job["seed"], wi, rep)
